@@ -162,8 +162,12 @@ def evaluate(ad, spec, with_grad, no_grad_ctx=False, strided=False, keep=None):
         g = torch.Generator().manual_seed(spec['in_seed'] + 99)
         cots = [torch.randn(o.shape, generator=g, dtype=torch.float64).to(o.dtype) for o in outs]
         live = [(o, c) for o, c in zip(outs, cots) if o.requires_grad]
+        cots_before = [c.clone() for o, c in live]
         try:
             grads = torch.autograd.grad([o for o, c in live], args, [c for o, c in live], allow_unused=True)
+            # the cotangents are the caller's tensors as well: a backward pass may not write into them
+            if any(not torch.equal(c, b) for (o, c), b in zip(live, cots_before)):
+                rec['cotangent_modified'] = True
         except inject.InjectedFault:
             raise
         except Exception as e:
@@ -207,6 +211,8 @@ def ulp_distance(a, b):
 
 
 def hist_main(specfile, cfgjson, out):
+    import faulthandler
+    faulthandler.enable()          # a crash of the interpreter leaves its stacks in the history's log
     core.ensure_deps()
     core.setup_repo_import()
     import torch
@@ -271,6 +277,8 @@ def hist_main(specfile, cfgjson, out):
         want = ref['grad' if with_grad else 'nograd']
         # outputs must not depend on whether autograd is recording: compare outs with the no-grad reference too
         base = ref['nograd']
+        if rec.get('cotangent_modified'):
+            return 'differs', 'the backward pass wrote into the cotangent tensors it was given (argument mutation)'
         if 'raised' in rec or 'raised' in base:
             return ('same', None) if rec.get('raised') == base.get('raised') else \
                 ('differs', 'raised %s, history-free reference %s' % (rec.get('raised'), base.get('raised', 'returned')))
@@ -450,10 +458,21 @@ def hist_main(specfile, cfgjson, out):
 
 # ---- driver ---------------------------------------------------------------------------------------
 
+CRASH_RETRIES = []
+
+
 def _run(cmd, env, timeout, log):
+    # A process killed by a signal (seen once in ~60 runs: SIGSEGV inside the interpreter / torch in an
+    # 8-thread history under line-event injection, not reproducible with the same seed) has decided nothing;
+    # the same history is run again, at most twice, and the crash is counted in the evidence.  A second and
+    # third crash leave the history inconclusive.
     try:
-        with open(log, 'w') as lf:
-            p = subprocess.run(cmd, cwd=core.VERIF, env=env, stdout=lf, stderr=subprocess.STDOUT, timeout=timeout)
+        for attempt in range(3):
+            with open(log, 'w' if attempt == 0 else 'a') as lf:
+                p = subprocess.run(cmd, cwd=core.VERIF, env=env, stdout=lf, stderr=subprocess.STDOUT, timeout=timeout)
+            if p.returncode >= 0:
+                break
+            CRASH_RETRIES.append({'cmd': cmd[3:5], 'signal': -p.returncode, 'attempt': attempt})
         return 'exit %d' % p.returncode
     except subprocess.TimeoutExpired:
         return 'timeout'
@@ -617,7 +636,8 @@ def driver(tier, seed, t0):
                                'repository suite observed: %d M-ARG evaluations' % suite['counts']['M-ARG'], ratio=0.0))
         elif not any(r['monitor'] == 'suite' for r in results):
             results.append(res(INCONCLUSIVE, {'suite': tests}, 'suite', 'no monitor output from the repository suite run'))
-    extra = {'repository_suite_under_monitors': suite, 'call_specs': len(specs), 'reference_entries_from_fresh_processes': nref, 'histories': len(hist),
+    extra = {'processes_killed_by_a_signal_and_rerun': list(CRASH_RETRIES),
+             'repository_suite_under_monitors': suite, 'call_specs': len(specs), 'reference_entries_from_fresh_processes': nref, 'histories': len(hist),
              'events_recorded': events_total, 'thread_counts': sorted(threads_seen),
              'distinct_schedule_signatures': len(sigs), 'calls_started_while_another_was_open': overlaps,
              'library_lines_observed_by_injector': lines, 'yields_injected': yields, 'faults_injected': faults,
